@@ -1,6 +1,8 @@
 """C07 -- identifiers resolve lexically; statement meaning ignores unrelated statements."""
 from .. import sx, gen, lib, meaning as M, monitors, minimise
 from .common import header_diff, prog_features, sig, case_prog
+from . import execcommon as X
+from . import builder_route
 
 RULE = ("programs biased to textually identical gate statements in different scopes (main body, several macros; 2-6 twins per "
         "program) and to collisions between macro parameters and lets / registers / aliases used as direct argument, array "
@@ -10,7 +12,7 @@ RULE = ("programs biased to textually identical gate statements in different sco
         "is inconclusive). non-trivial = program has a name collision or a twin; distinct = S-expression")
 ASSUMPTIONS = ["lexical binding rules as implemented in core_from_sx: parameters shadow header names inside the macro body only"]
 TIERS = {"quick": {"shards": 8, "budget_s": 45}, "thorough": {"shards": 16, "budget_s": 360}}
-REQUIRE = {"override-of-shadowed-name": 300, "route:build-lists": 300, "route:text": 300, "memo-hits": 500, "memo-hits-across-scopes": 50, "shadowing-programs": 300, "twin-programs": 300,
+REQUIRE = {"route:builder": 300, "judged-after-shifted-twin": 500, "route:text-native": 1000, "override-of-shadowed-name": 300, "route:build-lists": 300, "route:text": 300, "memo-hits": 500, "memo-hits-across-scopes": 50, "shadowing-programs": 300, "twin-programs": 300,
            "metamorphic-pairs": 200}
 
 MEMO = {"hits": 0, "cross": 0, "calls": 0}
@@ -29,7 +31,6 @@ def wrap_memo():
         MEMO["calls"] += 1
         if gate is not None:
             MEMO["hits"] += 1
-            scope = tuple(sorted(k for k in context if k.startswith("__in_context")))  # block context only
             # a hit whose stored gate was created under a different set of bindings for the names it mentions
             first = getattr(self, "_vf_scope", {}).get(key)
             names = set(_names(gate_args))
@@ -67,7 +68,17 @@ def judge(case):
     except M.MeaningError as ex:
         return "skipped:model-invalid:" + ex.kind, [], None
     route = case.get("route", "text")
-    if route == "build-lists":
+    # programs built earlier in this process (with the same gate definitions): a statement spelled like one of theirs
+    # must not inherit what the names meant there
+    for prior in case.get("prior") or ():
+        pp = sx.unnorm(prior) if isinstance(prior, list) else prior
+        lib.outcome(lib.parse, sx.to_text(pp), X.native() if route == "text-native" else None)
+    if route == "text-native":
+        o = lib.outcome(lib.parse, sx.to_text(prog), X.native())
+    elif route == "builder":
+        # assembled through the object-oriented CircuitBuilder API (see builder_route)
+        o = lib.outcome(lambda: builder_route.via_builder(prog, case.get("bseed", 0))[0])
+    elif route == "build-lists":
         # the documented S-expression API accepts lists as well as tuples (e.g. after a JSON round trip)
         o = lib.outcome(lib.build, to_lists(prog))
     elif route == "build-tuples":
@@ -142,6 +153,30 @@ def judge(case):
             elif o3[0] == "exc":
                 fails.append(("fill_in_let-crashed:" + o3[1], {"error": o3[2], "ov": ov}))
     return "ok", fails, {"c": c, "kc": kc}
+
+
+def shifted_twin(prog):
+    """The same program text except that the register has one more qubit and every slice taken directly from it starts
+    (and stops) one later: all statements are spelled as before but the aliases denote other qubits.  None if the program
+    has no such slice or its bounds are not literal."""
+    regs = [s for s in prog[1:] if s[0] == "register"]
+    if len(regs) != 1 or not isinstance(regs[0][2], int):
+        return None
+    rname, n = regs[0][1], regs[0][2]
+    out = []
+    changed = False
+    for s in prog[1:]:
+        if s[0] == "register":
+            out.append(("register", rname, n + 1))
+        elif s[0] == "map" and len(s) == 6 and s[2] == rname:
+            st, sp, se = s[3:6]
+            if any(isinstance(x, str) for x in (st, sp, se)) or (se is not None and se < 0):
+                return None
+            out.append(("map", s[1], rname, (0 if st is None else st) + 1, (n if sp is None else sp) + 1, se))
+            changed = True
+        else:
+            out.append(s)
+    return ("circuit",) + tuple(out) if changed else None
 
 
 def to_lists(x):
@@ -276,9 +311,16 @@ def process(ctx, case, seen):
             continue
         route = case.get("route", "text")
         base = {"route": route, "ov": case.get("ov")}
+        if "bseed" in case:
+            base["bseed"] = case["bseed"]
+        if case.get("prior"):
+            base["prior"] = case["prior"]
         small = minimise.minimise(prog, lambda p: clause in _clauses(dict(base, prog=p)), budget=250)
         d2 = [x for x in judge(dict(base, prog=small))[1] if x[0] == clause]
-        rec.violation(sig("C07", clause + ("" if route == "text" else ":" + route), prog_features(small)),
+        feats = prog_features(small)
+        if base.get("prior"):
+            feats.add("after-building-a-program-with-the-same-spelling")
+        rec.violation(sig("C07", clause + ("" if route == "text" else ":" + route), feats),
                       d2[0][1] if d2 else detail, dict(base, prog=small))
     if twin and not fails:
         metamorphic(ctx, prog)
@@ -299,13 +341,31 @@ def shard(ctx):
                         body_len=(2, 6), block_len=(1, 4), wild_numbers=False, p_let_index=0.5, p_let_arg=0.5,
                         reg_size=(2, 4), allow_sub=rng.random() < 0.3)
         prog = g.program()
-        case = {"prog": prog, "route": rng.choice(["text", "text", "build-lists", "build-tuples"])}
+        case = {"prog": prog, "route": rng.choice(["text", "text", "build-lists", "build-tuples", "builder"])}
+        if case["route"] == "builder":
+            case["bseed"] = rng.randrange(1 << 30)
         ov = shadow_override(rng, prog)
         if ov:
             case["ov"] = ov
         process(ctx, case, seen)
         if i <= 3:
             rec.sample({"text": sx.to_text(prog)})
+        if i % 4 == 0:
+            # executable programs over ONE fixed set of gate definition objects, each judged after its shifted twin
+            # (same spelling, aliases moved by one qubit) has been built in the same process
+            size = rng.choice([2, 3, 4])
+            g = gen.ExecGen(rng, reg_size=(size, size), max_depth=rng.choice([1, 2]), body_len=(1, 3), n_maps=(1, 4),
+                            n_macros=(0, 3), p_let_reg=0.0, p_shadow=0.6)
+            prog = g.program()
+            case = {"prog": prog, "route": "text-native"}
+            twin = shifted_twin(prog)
+            if twin is not None:
+                case["prior"] = [twin]
+                rec.count("judged-after-shifted-twin")
+            process(ctx, case, seen)
+            if twin is not None:
+                # ... and the twin after the original
+                process(ctx, {"prog": twin, "route": "text-native", "prior": [prog]}, seen)
     monitors.report_contracts(rec)
 
 
@@ -313,9 +373,12 @@ def replay(ctx, case):
     wrap_memo()
     prog = case_prog(case)
     route = case.get("route", "text")
-    st, fails, info = judge({"prog": prog, "route": route, "ov": case.get("ov")})
+    st, fails, info = judge({"prog": prog, "route": route, "ov": case.get("ov"), "prior": case.get("prior"), "bseed": case.get("bseed", 0)})
     for clause, detail in fails:
-        ctx.rec.violation(sig("C07", clause + ("" if route == "text" else ":" + route), prog_features(prog)), detail, case)
+        feats = prog_features(prog)
+        if case.get("prior"):
+            feats.add("after-building-a-program-with-the-same-spelling")
+        ctx.rec.violation(sig("C07", clause + ("" if route == "text" else ":" + route), feats), detail, case)
     if "removed_path" in case:
         ctx.rng.seed(0)
         metamorphic(ctx, prog)
